@@ -36,7 +36,7 @@ def loop(invariant=(), decreases=(), index="_i", types=None, modifies=None, modi
 class Contract:
     def __init__(self, name, params=None, requires=(), ensures=(), raises=(), returns=None, loops=None, modifies=None,
                  ensures_raise=(), props=(), verify_only=False, site_requires=None, status="proved", cases=None, note="", reify=None,
-                 max_paths=400, target=None, elements_are_keys=False, ghost_entry=None, heavy=False, when=None, modifies_heap=None, clock_reads=0):
+                 max_paths=400, target=None, elements_are_keys=False, ghost_entry=None, heavy=False, when=None, modifies_heap=None, clock_reads=0, result_alias=None, ghost_at_calls=None):
         self.name = name
         self.params = params or {}
         self.requires = [requires] if isinstance(requires, str) else list(requires)
@@ -60,6 +60,8 @@ class Contract:
         self.reify = reify
         self.max_paths = max_paths
         self.elements_are_keys = elements_are_keys
+        self.ghost_at_calls = dict(ghost_at_calls or {})  # callee contract name -> {callee ghost parameter: this contract's ghost}
+        self.result_alias = list(result_alias or [])  # (condition over the pre-state, parameter): the function returns that argument itself
         self.clock_reads = clock_reads  # how many readings of time.time() the function may take (call sites advance the clock)
         self.modifies_heap = modifies_heap or []  # (heap class, field) pairs the function may write
         self.when = when  # optional predicate(bound args dict) selecting this contract at a call site
@@ -263,7 +265,8 @@ class Registry:
         for nm in c.params:
             if nm not in locals_:
                 # ghost parameter of the callee: supplied by the caller's ghost of the same name
-                gv = getattr(I, "ghost_values", {}).get(nm)
+                ren = getattr(getattr(I, "contract", None), "ghost_at_calls", {}).get(c.name, {})
+                gv = getattr(I, "ghost_values", {}).get(ren.get(nm, nm))
                 if gv is None:
                     raise Unsupported(f"ghost parameter {nm} of {c.name} is not available at this call site")
                 locals_[nm] = gv
@@ -290,6 +293,8 @@ class Registry:
                 I.raise_py(self.resolve(exc_name))
             if mode == "iff":
                 I.assume_ast(ast.UnaryOp(op=ast.Not(), operand=I.clause_ast(cond)), pre)
+        if not p.feasible(z3.BoolVal(True)):
+            raise Infeasible()  # the path was dead before the call: nothing to blame on the callee's postcondition
         self._havoc_modifies(I, c, fr)
         if c.clock_reads:
             # the callee's readings of the external clock: fresh, monotone, after the caller's last one;
@@ -299,13 +304,23 @@ class Registry:
             for k in range(1, c.clock_reads + 1):
                 fr.locals[f"time_{k}"] = m_time(I, [], {})
             fr.locals["time_last"] = fr.locals[f"time_{c.clock_reads}"]
-        result = I.fresh(c.returns, "ret_" + c.name.rsplit(".", 1)[-1]) if c.returns is not None else None
+        npos = p.pos
+        result, aliased = None, False
+        for cond, pname in c.result_alias:
+            if p.branch(I.clause_formula(cond, pre, -1), note=f"{tag}.returns-{pname}"):
+                result, aliased = locals_[pname], True
+                break
+        if not aliased:
+            result = I.fresh(c.returns, "ret_" + c.name.rsplit(".", 1)[-1]) if c.returns is not None else None
+        forked = p.pos != npos  # the result's shape was a choice (None or object, one of ...): other forks cover the rest
         fr.locals["result"] = result
         try:
             I.assume_clauses(c.ensures, fr)
             ok = p.feasible(z3.BoolVal(True))
         except Infeasible:
             ok = False
+        if not ok and forked:
+            raise Infeasible()
         if not ok:
             # never continue silently on an inconsistent state: that would make every later
             # obligation of the caller vacuous
@@ -336,6 +351,8 @@ class Registry:
                 continue
             base, _, attr = expr.rpartition(".")
             obj = I.eval_clause(base, fr, 0)
+            if obj is None:
+                continue  # an optional argument that is absent
             if not isinstance(obj, SObj):
                 raise Unsupported(f"modifies target {expr} is not an object field")
             if ty is None:
